@@ -292,6 +292,10 @@ func SfApiBody(ep, cls, stream string) (body []byte, has bool) {
 			"url_q1": "rtmp://127.0.0.1:1/live/x?a=1&b=2", "url_q2": "rtmp://127.0.0.1:1/live?vhost=v?token=t/x", "url_q2app": "rtmp://127.0.0.1:1/live?x?y",
 			"url_q2root": "rtmp://127.0.0.1:1/?x?y", "url_q3": "rtmp://127.0.0.1:1/live/x?a?b?c", "url_frag": "rtmp://127.0.0.1:1/live/x#f?a?b", "url_qonly": "rtmp://127.0.0.1:1?a?b"}[cls]
 		return []byte(`{"url": ` + q(u) + `, "stream_name": ` + q(stream+cls) + `, "pull_timeout_ms": 200, "pull_retry_num": 0}`), true
+	case "rtp_to_1", "rtp_to_500", "rtp_to_999", "rtp_to_1001", "rtp_to_neg", "rtp_to_max": // the liveness timeout of the GB28181 input
+		to := map[string]string{"rtp_to_1": "1", "rtp_to_500": "500", "rtp_to_999": "999", "rtp_to_1001": "1001", "rtp_to_neg": "-1000",
+			"rtp_to_max": "2147483647"}[cls]
+		return []byte(`{"stream_name": ` + q(stream+cls) + `, "port": 0, "timeout_ms": ` + to + `}`), true
 	case "rtp_port_neg":
 		return []byte(`{"stream_name": ` + q(stream+"n") + `, "port": -1, "timeout_ms": 1000}`), true
 	case "rtp_port_big":
@@ -796,7 +800,10 @@ func SfRtspReply(a string, method string, cseq string, sdp string) []byte {
 		return frame(0, 3, 3)
 	case "il_media": // well-formed media of both tracks, an SR, and padding extremes
 		var b []byte
-		add := func(ch byte, dg []byte) { b = append(b, '$', ch, byte(len(dg)>>8), byte(len(dg))); b = append(b, dg...) }
+		add := func(ch byte, dg []byte) {
+			b = append(b, '$', ch, byte(len(dg)>>8), byte(len(dg)))
+			b = append(b, dg...)
+		}
 		add(0, SfRtpDatagram("ok", 0, false, 96, 1, 0, 1, SfPayload("avc", "stapOk")))
 		add(0, SfRtpDatagram("ok", 0, true, 96, 2, 0, 1, SfPayload("avc", "single")))
 		add(2, SfRtpDatagram("ok", 0, true, 97, 1, 0, 2, SfPayload("aac", "au2")))
